@@ -334,6 +334,11 @@ def perform_zhit(
             f"There are no unmasked data points in the '{data.get_label()}' data set parsed from '{data.get_path()}'"
         )
 
+    if smoothing != "none" and num_points > len(f):
+        raise ValueError(
+            f"Expected {num_points=} to be less than or equal to the number of unmasked data points ({len(f)}) when smoothing the phase data"
+        )
+
     log_f: NDArray[float64] = log(f)
     ln_omega: NDArray[float64] = ln(2 * pi * f)
 
